@@ -721,7 +721,7 @@ func runC11(rep *engines.Report, p *pool.Pool, tier string) int {
 	budget := 6 * time.Minute
 	if tier != "quick" {
 		plans = []plan{{false, 0, false}, {false, 1, false}, {false, 2, false}, {true, 0, false}, {true, 1, false}, {true, 2, true}, {false, 3, true}}
-		budget = 28 * time.Minute
+		budget = 24 * time.Minute
 	}
 	deadline := time.Now().Add(budget)
 	p.JobTimeout = 20 * time.Minute
@@ -872,8 +872,14 @@ func racePass(rep *engines.Report) {
 		if strings.HasPrefix(scn.Name, "S6") {
 			continue // deadlocks (known finding): nothing to sample
 		}
-		if rep.Tier == "quick" && !strings.HasPrefix(scn.Name, "S") && si%10 != 0 {
-			continue // quick: the hand-written scenarios and every tenth generated pair
+		generated := !strings.HasPrefix(scn.Name, "S")
+		if generated && ((rep.Tier == "quick" && si%10 != 0) || (rep.Tier != "quick" && si%3 != 0)) {
+			continue // the hand-written scenarios, and every tenth (quick) / third (thorough) generated pair
+		}
+		if generated && rep.Tier != "quick" {
+			iters = "50"
+		} else if rep.Tier != "quick" {
+			iters = "150"
 		}
 		cmd := exec.Command(bin, "racebody", scn.Name, iters)
 		cmd.Env = append(os.Environ(), "GOMAXPROCS=16", "GORACE=halt_on_error=0")
